@@ -362,7 +362,7 @@ class Inliner:
             if isinstance(n, ast.Assign):
                 for t in n.targets:
                     for x in ast.walk(t):
-                        if isinstance(x, ast.Name):
+                        if isinstance(x, ast.Name) and isinstance(x.ctx, (ast.Store, ast.Del)):
                             binds.setdefault(x.id, []).append(n.value if t is x else None)
             elif isinstance(n, ast.arg):
                 binds.setdefault(n.arg, []).append(None)
